@@ -86,13 +86,14 @@ CHECKS = {
     "C11": ("model_checking",
             "TLA+ SigCache module (LRU state machine, key derivation) model-checked by TLC for transparency; TLC state-machine replay of operation sequences run on a cached and an uncached real Authority",
             "TLC exhausts the cache model over a small request universe and shows cached verdict = uncached verdict in every reachable state (negative control: the "
-            "old key is refuted). Seeded operation sequences (sign, verify, batch-verify, combine, replays with altered message/batch/view/signer labels, capacities "
+            "old key and a shared single/batch key space are refuted); a second model, MC_SigCacheConc, has overlapping callers (two critical sections per call) and refutes a "
+            "design that reserves the key before verifying. Seeded operation sequences (sign, verify, batch-verify, combine, overlapping calls for one signature through a gated scheme, replays with altered message/batch/view/signer labels, capacities "
             "1..4 and 50, three schemes) run on two real authorities; TLC replays the trace, compares verdicts at every step (Pass A), the uncached verdict with the "
             "Cert model, and the real LRU list with the model's after every operation (Pass B).",
             "Signature objects are replayed with entry boundaries intact.", "DESIGN.md section 6, C11"),
     "C12": ("model_checking",
             "TLA+ Wire module defines the object grammar; TLC enumerates it (spec -> code), the harness round-trips every shape with real keys, TLC compares the projections and checks grammar coverage (line check)",
-            "Every object shape of Wire!Objects x three schemes goes through ToProto/Marshal/Unmarshal/FromProto; hash, bytes-to-sign, participants, acted-on fields and the "
+            "Every object shape of Wire!Objects x three schemes (4 replicas) and x BLS in a 67-replica configuration goes through ToProto/Marshal/Unmarshal/FromProto; hash, bytes-to-sign, participants, acted-on fields and the "
             "verification verdict at another replica are compared before/after by TLC, which also checks that every shape of the grammar was exercised. Fetch replies go through "
             "the real RequestBlockQF. TLA+ serves as enumerator and oracle language here (equality), as stated in DESIGN 9.",
             "protobuf's codec is trusted.", "DESIGN.md section 6, C12"),
@@ -100,7 +101,7 @@ CHECKS = {
             "TLA+ BlockStore module over block forests (reference ancestry, prune soundness, code-shaped walk/index); TLC state-machine replay of store/get/extends/commit sequences run on the real Blockchain, RequestBlockQF and Committer",
             "Seeded random forests (forks, equal views on different branches, gaps, unobtainable parents) and a structured equivocation-next-to-gap family are driven "
             "through the real Blockchain (fetch through the real RequestBlockQF with lying replies) and the real Committer; TLC replays each sequence and checks "
-            "content addressing, exact ancestry where the store can know it, and that abandoned blocks are off the committed chain and reported once (Pass A), plus the "
+            "content addressing, exact ancestry where the store can know it, and that abandoned blocks are off the committed chain and reported once -- at failed commits too, and across commits (Pass A), plus the "
             "code-shaped Extends walk, stored set and reported set (Pass B).",
             "Extends is judged only when every block the walk needs is stored or fetchable.", "DESIGN.md section 6, C13"),
     "C14": ("model_checking",
@@ -120,7 +121,7 @@ CHECKS = {
     "C19": ("model_checking",
             "TLA+ IDSet module (byte-level Bitfield model vs ideal set) exhausted by TLC; TLC trace validation of operation sequences run on the real Bitfield and real Sign/Combine",
             "TLC exhausts the byte-level model against the ideal set for all insertion orders over boundary ids; operation sequences (exhaustive to a depth over "
-            "boundary ids, random over 1..300, all 0/1/2-byte strings in the thorough tier) are executed on the real crypto.Bitfield and the real "
+            "boundary ids, random over 1..300, all 0/1/2-byte strings in the thorough tier; iteration stopped early by the callback) are executed on the real crypto.Bitfield and the real "
             "ECDSA/EdDSA/BLS Sign/Combine, and TLC replays the recorded trace comparing every observation with the ideal set.",
             "TLC soundness; ids >= 1.", "DESIGN.md section 6, C19"),
     "C17": ("model_checking",
